@@ -66,7 +66,7 @@ def independent_elements(case, ctx):
     rest = p[1:]
     sites = [q for q in brun.visited if q[1:] == rest]
     name0 = brun.dist_info[p][0]
-    if len(sites) == n and name0 in ("normal", "laplace") and all(brun.dist_info[q][0] == name0 for q in sites) and not any(isinstance(c, int) for c in rest):
+    if len(rest) >= 1 and len(sites) == n and name0 in ("normal", "laplace") and all(brun.dist_info[q][0] == name0 for q in sites) and not any(isinstance(c, int) for c in rest):
         vec = [float(gfi.value_for(name0, None, 0.1 + 0.15 * j)) for j in range(n)]
         ov = float(gfi.value_for(name0, None, 0.93))
         base = C[(slice(None), *rest)].set(jnp.asarray(vec, dtype=jnp.float32))
